@@ -135,7 +135,12 @@ pub struct ParseContext {
     pub macros: Rc<Macro>,
     // messages
     pub messages: Rc<RefCell<Vec<String>>>,
+    // how many .include directives lead to the file being parsed
+    pub include_depth: usize,
 }
+
+/// Deepest nesting of .include directives
+pub const MAX_INCLUDE_DEPTH: usize = 64;
 
 impl ParseContext {
     pub fn new(
@@ -155,6 +160,7 @@ impl ParseContext {
                 macroses: RefCell::new(hashmap! {}),
             }),
             messages: Rc::new(RefCell::new(vec![])),
+            include_depth: 0,
         }
     }
 
@@ -227,7 +233,15 @@ pub fn parse_file_internal(context: &ParseContext) -> Result<(), Error> {
         segments,
         macros,
         messages,
+        include_depth,
     } = context.clone();
+    if include_depth > MAX_INCLUDE_DEPTH {
+        bail!(
+            "Cannot read file {} because: .include nested deeper than {} levels (does the file include itself?)",
+            current_path.to_string_lossy(),
+            MAX_INCLUDE_DEPTH
+        );
+    }
     let include_paths = include_paths.borrow_mut();
     #[cfg(feature = "verif")]
     let verif_requested = current_path.clone();
@@ -282,6 +296,7 @@ pub fn parse_file_internal(context: &ParseContext) -> Result<(), Error> {
         segments,
         macros,
         messages,
+        include_depth,
     };
 
     parse(source.as_str(), &context)?;
